@@ -180,3 +180,23 @@ def gen(seed, min_ops=3, max_ops=8, kinds=None, nsub=1, uniform_mode=None):
       mode.append(ms)
     scn = {"subs": subs, "mode": mode, "inmode": rnd.choice(IOMODES), "outmode": rnd.choice(IOMODES)}
     return scn
+
+
+def gen_fanout(seed):
+  """One weight TENSOR read by 9-12 FULLY_CONNECTED operators (a table shared by many layers), each dynamic-range or
+  weight-only with the same weight parameters: the readers fall into two groups whose operator indices are far apart."""
+  rnd = random.Random(seed)
+  n = rnd.randint(9, 12)
+  gran = rnd.choice(["w8c", "w8t"])
+  drq, wo = {"m": "DRQ", "a": "-", "w": gran}, {"m": "WO", "a": "-", "w": gran}
+  role, ops = ["act", "w"], []
+  for i in range(n):
+    role.append("act")
+    ops.append({"kind": "FC", "ins": [0, 1, -1], "outs": [len(role) - 1]})
+  nwo = rnd.randint(1, 3)
+  wos = set(rnd.sample(range(n), nwo))
+  if rnd.random() < 0.5:
+    wos = {rnd.randint(0, 7), rnd.randint(8, n - 1)}      # one early and one late reader dequantise
+  sub = {"ops": ops, "trole": role, "tbuf": [0] * len(role), "tsh": [[1, 2] if r == "act" else [0, 0] for r in role],
+         "gins": [0], "gouts": [o["outs"][0] for o in ops], "sigrev": False}
+  return {"subs": [sub], "mode": [[wo if i in wos else drq for i in range(n)]], "inmode": NOQ, "outmode": NOQ}
